@@ -73,8 +73,8 @@ m('56-lock-error-ignored', 'src/db.rs', "\t\tlock_file.try_lock_exclusive().map_
 
 # behaviour-preserving controls: must stay silent everywhere
 CONTROLS = []
-def c(name, file, old, new):
-    CONTROLS.append(dict(name=name, file=file, old=old, new=new))
+def c(name, file, old, new, regex=False):
+    CONTROLS.append(dict(name=name, file=file, old=old, new=new, regex=regex))
 c('ctl-extract-sync-helper', 'src/log.rs', "\t\t\t\t\ttry_io!(file.sync_data());\n", "\t\t\t\t\tSelf::sync_file(&file)?;\n")
 c('ctl-map_err-instead-of-try_io', 'src/log.rs', "\t\t\ttry_io!(file.set_len(0));", "\t\t\tfile.set_len(0).map_err(Error::Io)?;")
 c('ctl-extra-logging', 'src/db.rs', "\t\tself.log_worker_wait.signal();\n\t\tOk(())\n\t}\n\n\tfn defer_commit(", "\t\tlog::trace!(target: \"parity-db\", \"signalling\");\n\t\tself.log_worker_wait.signal();\n\t\tOk(())\n\t}\n\n\tfn defer_commit(")
@@ -126,3 +126,12 @@ m('45-overlay-before-queue-lock', 'src/db.rs', "\tfn commit_raw(&self, commit: C
 # ---- C05 / C01: file reads shadowed by the log overlay
 m('r1-file-read-ignores-overlay', 'src/table.rs', "\tpub fn read_next_part(&self, index: u64, log: &LogWriter) -> Result<Option<u64>> {\n\t\tlet mut buf = PartialEntry::new_uninit();\n\t\tif !log.value(self.id, index, buf.as_mut()) {\n\t\t\tself.file.read_at(buf.as_mut(), index * self.entry_size as u64)?;\n\t\t}",
   "\tpub fn read_next_part(&self, index: u64, log: &LogWriter) -> Result<Option<u64>> {\n\t\tlet mut buf = PartialEntry::new_uninit();\n\t\tlet _ = log;\n\t\tself.file.read_at(buf.as_mut(), index * self.entry_size as u64)?;", {'C05': ['6b overlay-first table::ValueTable::read_next_part'], 'C01': ['4sb overlay-first table::ValueTable::read_next_part']})
+
+# ---- more behaviour-preserving controls
+c('ctl-try_for_each-flush-loop', 'src/db.rs', "\t\t\tif self.options.sync_data {\n\t\t\t\tfor c in self.columns.iter() {\n\t\t\t\t\tc.flush()?;\n\t\t\t\t}\n\t\t\t}\n\t\t\tself.log.clean_logs(num_cleanup - keep_logs)?", "\t\t\tif self.options.sync_data {\n\t\t\t\tself.columns.iter().try_for_each(|c| c.flush())?;\n\t\t\t}\n\t\t\tself.log.clean_logs(num_cleanup - keep_logs)?")
+c('ctl-rename-defer-flag', 'src/db.rs', r"\bdefer\b", "postpone", regex=True)
+c('ctl-flush_one-early-return', 'src/log.rs', "\t\tif cur_size > min_size {\n\t\t\tif let Some(to_flush) = self.appending.write().take() {", "\t\tif cur_size <= min_size {\n\t\t\treturn Ok(false)\n\t\t}\n\t\t{\n\t\t\tif let Some(to_flush) = self.appending.write().take() {")
+c('ctl-inline-clean_all_logs-in-open', 'src/db.rs', "\t\t\tdb.log.clear_replay_logs();\n\t\t\tdb.clean_all_logs()?;\n\t\t\tdb.log.kill_logs()?;", "\t\t\tdb.log.clear_replay_logs();\n\t\t\tfor c in db.columns.iter() {\n\t\t\t\tc.flush()?;\n\t\t\t}\n\t\t\tlet num_cleanup = db.log.num_dirty_logs();\n\t\t\tdb.log.clean_logs(num_cleanup)?;\n\t\t\tdb.log.kill_logs()?;")
+c('ctl-publish-helper', 'src/db.rs', "\t\tlet mut bytes = 0;\n\t\tfor (c, indexed) in &commit.indexed {\n\t\t\tindexed.copy_to_overlay(\n\t\t\t\t&mut overlay[*c as usize],\n\t\t\t\trecord_id,\n\t\t\t\t&mut bytes,\n\t\t\t\t&self.options,\n\t\t\t);\n\t\t}\n\n\t\tfor (c, iterset) in &commit.btree_indexed {\n\t\t\titerset.copy_to_overlay(\n\t\t\t\t&mut overlay[*c as usize].btree_indexed,\n\t\t\t\trecord_id,\n\t\t\t\t&mut bytes,\n\t\t\t\t&self.options,\n\t\t\t);\n\t\t}\n\n\t\tlet commit = Commit { id: record_id, changeset: commit, bytes };\n\n\t\tlog::debug!(\n\t\t\ttarget: \"parity-db\",\n\t\t\t\"Queued commit {}, {} bytes\",",
+  "\t\tlet bytes = self.publish(&mut overlay, &commit, record_id);\n\n\t\tlet commit = Commit { id: record_id, changeset: commit, bytes };\n\n\t\tlog::debug!(\n\t\t\ttarget: \"parity-db\",\n\t\t\t\"Queued commit {}, {} bytes\",")
+EXTRA_FILES['ctl-publish-helper'] = ('src/db.rs', "\tfn defer_commit(\n\t\t&self,\n\t\tmut queue: MutexGuard<CommitQueue>,", "\tfn publish(&self, overlay: &mut Vec<CommitOverlay>, commit: &CommitChangeSet, record_id: u64) -> usize {\n\t\tlet mut bytes = 0;\n\t\tfor (c, indexed) in &commit.indexed {\n\t\t\tindexed.copy_to_overlay(&mut overlay[*c as usize], record_id, &mut bytes, &self.options);\n\t\t}\n\t\tfor (c, iterset) in &commit.btree_indexed {\n\t\t\titerset.copy_to_overlay(&mut overlay[*c as usize].btree_indexed, record_id, &mut bytes, &self.options);\n\t\t}\n\t\tbytes\n\t}\n\n\tfn defer_commit(\n\t\t&self,\n\t\tmut queue: MutexGuard<CommitQueue>,")
